@@ -17,6 +17,8 @@ import tempfile
 import warnings
 import io
 import contextlib
+import shutil
+import sys
 import numpy as np
 
 from harness.common import run_driver, prove, BASE_TRUST, LeanError
@@ -38,7 +40,7 @@ def gen_decl(rng, malformed):
             continue
         v = int(rng.integers(0, nv))
         n = sizes[v]
-        form = str(rng.choice(["whole", "idx", "slice", "slice"]))
+        form = str(rng.choice(["whole", "idx", "slice", "slice", "strided", "pick"]))
         if form == "whole":
             e = dict(kind="whole", v=v)
             lhs = n
@@ -47,6 +49,25 @@ def gen_decl(rng, malformed):
             i = int(rng.integers(lo, n))
             e = dict(kind="idx", v=v, i=i)
             lhs = len(np.arange(n)[i:i + 1])
+        elif form == "strided":
+            # x[a:b:step] incl. reversed slices: the equation elements pair with the selected elements in slice order
+            step = int(rng.choice([-1, -1, 2, -2, 3]))
+            a = None if rng.random() < 0.4 else int(rng.integers(-n, n))
+            b = None if rng.random() < 0.4 else int(rng.integers(-n, n + 1))
+            if not malformed:
+                for _ in range(10):
+                    if len(np.arange(n)[a:b:step]) > 0:
+                        break
+                    a, b = None, None
+            e = dict(kind="strided", v=v, a=a, b=b, step=step)
+            lhs = len(np.arange(n)[a:b:step])
+        elif form == "pick":
+            # x[[k1, k2, ...]]: an index list in any order (distinct elements)
+            cnt = int(rng.integers(1, n + 1))
+            ks = [int(i) for i in rng.permutation(n)[:cnt]]
+            ks = [k - n if rng.random() < 0.3 else k for k in ks]
+            e = dict(kind="pick", v=v, ks=ks)
+            lhs = cnt
         else:
             a = None if rng.random() < 0.2 else int(rng.integers(-n, n))
             b = None if rng.random() < 0.2 else int(rng.integers(-n, n + 2))
@@ -74,6 +95,10 @@ def lhs_size(decl, e):
         return n
     if e["kind"] == "idx":
         return len(np.arange(n)[e["i"]:e["i"] + 1])
+    if e["kind"] == "strided":
+        return len(np.arange(n)[e["a"]:e["b"]:e["step"]])
+    if e["kind"] == "pick":
+        return len(e["ks"])
     return len(np.arange(n)[e["a"]:e["b"]])
 
 
@@ -87,6 +112,11 @@ def line_of(decl):
             parts += ["whole", str(e["v"]), str(e["rhs"])]
         elif k == "idx":
             parts += ["idx", str(e["v"]), str(e["i"]), str(e["rhs"])]
+        elif k == "strided":
+            parts += ["strided", str(e["v"]), "none" if e["a"] is None else str(e["a"]),
+                      "none" if e["b"] is None else str(e["b"]), str(e["step"]), str(e["rhs"])]
+        elif k == "pick":
+            parts += ["pick", str(e["v"]), str(len(e["ks"]))] + [str(x) for x in e["ks"]] + [str(e["rhs"])]
         else:
             parts += ["slice", str(e["v"]), "none" if e["a"] is None else str(e["a"]),
                       "none" if e["b"] is None else str(e["b"]), str(e["rhs"])]
@@ -133,6 +163,10 @@ def build(decl, rng):
                 dv = v
             elif e["kind"] == "idx":
                 dv = v[e["i"]]
+            elif e["kind"] == "strided":
+                dv = v[e["a"]:e["b"]:e["step"]]
+            elif e["kind"] == "pick":
+                dv = v[list(e["ks"])]
             else:
                 dv = v[e["a"]:e["b"]]
             setattr(m, nm, Ode(nm, rhs, dv))
@@ -181,6 +215,10 @@ def expected_matrix(decl, sdae, y0, names):
             n = len(cols_all)
             i = e["i"] if e["i"] >= 0 else e["i"] + n
             cols = cols_all[[i]]
+        elif e["kind"] == "strided":
+            cols = cols_all[e["a"]:e["b"]:e["step"]]
+        elif e["kind"] == "pick":
+            cols = cols_all[list(e["ks"])]
         else:
             cols = cols_all[e["a"]:e["b"]]
         if len(rows) != len(cols):
@@ -198,7 +236,7 @@ def run(rep, tier, seed):
     rng = np.random.default_rng(seed)
     ndecl, ninline, nmodule = (300, 60, 6) if tier == "quick" else (6000, 600, 40)
     lines, expect, decls, fails = [], [], [], []
-    hist = dict(whole=0, idx=0, slice=0, alg=0, neg_idx=0, open_slice=0, scalar_rhs_vector_lhs=0, errors=0, interleaved=0)
+    hist = dict(whole=0, idx=0, slice=0, strided=0, pick=0, alg=0, neg_idx=0, open_slice=0, scalar_rhs_vector_lhs=0, errors=0, interleaved=0)
     tmp = tempfile.mkdtemp(prefix="c04_")
     try:
         n_inline = n_module = 0
@@ -269,6 +307,19 @@ def run(rep, tier, seed):
                 diffs.append(dict(declaration=d, line=l, implementation=e, model=g))
     except LeanError as ex:
         broken.append(str(ex))
+    # ---- generation histories: one symbolic DAE, numerical models made for several variable layouts in turn; the mass matrix of
+    #      each must be the one a fresh DAE object gives for that layout (nothing cached from an earlier layout)
+    from harness import lang as _lang, pipeline as _pipe
+    htmp = tempfile.mkdtemp(prefix="c04h_")
+    try:
+        gms = [m for m in _lang.corpus() if m.kind == "DAE"] + [_lang.Gen(rng, kind="DAE").model() for _ in range(4 if tier == "quick" else 40)]
+        hf, nh = _pipe.regen_histories(gms, rng, htmp, "c04h", what=("M",), with_module=(tier != "quick"))
+    finally:
+        shutil.rmtree(htmp, ignore_errors=True)
+        if htmp in sys.path:
+            sys.path.remove(htmp)
+    rep.cov["generation_histories"] = nh
+    hist_fails = list(hf)
     rep.cov["evaluations"] = len(lines)
     rep.cov["distinct_nontrivial"] = len({l for l, d in zip(lines, decls) if len(d["eqs"]) > 1})
     rep.cov["rule"] = ("random DAE declarations (1-6 variables of sizes 1-5 in random order, 1-6 equations, any interleaving of Ode/Eqn, "
@@ -281,7 +332,9 @@ def run(rep, tier, seed):
     rep.cov["disagreements"] = len(diffs)
     for decl, m in fails[:5]:
         rep.violation("C04 fails on the real code: " + m, dict(kind="declaration", declaration=decl, line=line_of(decl), message=m))
-    if not fails:
+    for case, m in hist_fails[:3]:
+        rep.violation("C04 fails on the real code: " + m, dict(kind="generation-history", case=case, message=m))
+    if not fails and not hist_fails:
         for f in failed:
             rep.violation(f"proof obligation no longer checks: {f}; oracle found no failing declaration among {len(lines)}",
                           dict(kind="proof", theorem=f), has_input=False)
